@@ -29,6 +29,19 @@
 (* that message.  Every key set signs whatever it is asked to (an honest   *)
 (* set of a later epoch may collude): "sigBy" is unconstrained.            *)
 (*                                                                         *)
+(* Composite values have TWINS: values that agree with an honest value on  *)
+(* a part and differ on another.  A twin is simply a distinct value (it is *)
+(* NOT the committed key / the committed parameters):                      *)
+(*   K/s   the aggregate key K with the same Merkle commitment and a       *)
+(*         shrunken total stake.  Lotteries only get easier: what K's set  *)
+(*         signed still verifies under K/s, and ONE genuine signer of K    *)
+(*         can produce alone a multi-signature that verifies under K/s     *)
+(*         (sigBy = K/s) -- and under nothing else.                        *)
+(*   K/n   same Merkle root and total stake, another number of leaves:     *)
+(*         nothing verifies under it.                                      *)
+(*   P/k P/m P/f P/g   the parameters P with ONE of k, m, phi_f changed    *)
+(*         (/g: phi_f changed beyond the 5th decimal only).                *)
+(*                                                                         *)
 (* The provider of certificates is untrusted: at every fetch it answers    *)
 (* with ANY certificate of the universe or with nothing, independently of  *)
 (* what it answered before.                                                *)
@@ -46,6 +59,7 @@ CONSTANTS
     MaxAlter,           \* 1 or 2: field alterations per tampered certificate
     TamperFields,       \* subset of AllTamperFields used for tampering
     MsgModes,           \* subset of {"k", "d", "r"}: how a protocol-message change treats the signed message
+    Twins,              \* TRUE: alterations also use the twins of the value being altered
     ForgeEpochs, ForgeKeys, ForgePars, ForgeNextAvk, ForgeNextPars,   \* domains of forged certificates
     Forge2Pars,         \* parameter ids used on the second forging level
     ForgeLevels         \* 1: forged certificates link to honest ones; 2: also to forged ones
@@ -57,6 +71,14 @@ Key(e)   == "H" \o ToString(e)                  \* the key set registered for ep
 Par(e)   == IF e <= 2 THEN "p" ELSE "q"         \* protocol parameters change after epoch 2
 Keys     == {Key(e) : e \in 2..(MaxEpoch + 1)} \cup {"A"}     \* "A": a set the adversary owns
 Pars     == {"p", "q"}
+
+(* twins of a key / of a parameter set (of a base value only) *)
+AvkTwins(k)  == IF Twins /\ k \in Keys THEN {k \o "/s", k \o "/n"} ELSE {}
+SignTwins(k) == IF Twins /\ k \in Keys THEN {k \o "/s"} ELSE {}       \* twins somebody can sign under
+ParTwins(p)  == IF Twins /\ p \in Pars THEN {p \o "/k", p \o "/m", p \o "/f", p \o "/g"} ELSE {}
+
+(* does a multi-signature made by s (on the stored signed message) verify under key k *)
+Verifies(s, k) == s # "none" /\ (s = k \/ k = s \o "/s")
 
 -----------------------------------------------------------------------------
 (* The honest chain: every certificate links to the first certificate of  *)
@@ -99,24 +121,24 @@ Alter1(c) ==
     \cup (IF "epoch" \in TamperFields THEN
         {[tag |-> "epoch=" \o ToString(v), c |-> [c EXCEPT !.epoch = v]] : v \in Epochs \ {c.epoch}} ELSE {})
     \cup (IF "avk" \in TamperFields THEN
-        {[tag |-> "avk=" \o v, c |-> [c EXCEPT !.avk = v]] : v \in Keys \ {c.avk}} ELSE {})
+        {[tag |-> "avk=" \o v, c |-> [c EXCEPT !.avk = v]] : v \in (Keys \cup AvkTwins(c.avk)) \ {c.avk}} ELSE {})
     \cup (IF "params" \in TamperFields THEN
-        {[tag |-> "params=" \o v, c |-> [c EXCEPT !.params = v]] : v \in Pars \ {c.params}} ELSE {})
+        {[tag |-> "params=" \o v, c |-> [c EXCEPT !.params = v]] : v \in (Pars \cup ParTwins(c.params)) \ {c.params}} ELSE {})
     \cup (IF "msgEpoch" \in TamperFields THEN
         {[tag |-> "msgEpoch=" \o ToString(v) \o s, c |-> MsgAlt([c EXCEPT !.msgEpoch = v], s)] :
             v \in (0..(MaxEpoch + 1)) \ {c.msgEpoch}, s \in MsgModes} ELSE {})
     \cup (IF "nextAvk" \in TamperFields THEN
         {[tag |-> "nextAvk=" \o v \o s, c |-> MsgAlt([c EXCEPT !.nextAvk = v], s)] :
-            v \in (Keys \cup {"none"}) \ {c.nextAvk}, s \in MsgModes} ELSE {})
+            v \in (Keys \cup {"none"} \cup AvkTwins(c.nextAvk)) \ {c.nextAvk}, s \in MsgModes} ELSE {})
     \cup (IF "nextParams" \in TamperFields THEN
         {[tag |-> "nextParams=" \o v \o s, c |-> MsgAlt([c EXCEPT !.nextParams = v], s)] :
-            v \in (Pars \cup {"none"}) \ {c.nextParams}, s \in MsgModes} ELSE {})
+            v \in (Pars \cup {"none"} \cup ParTwins(c.nextParams)) \ {c.nextParams}, s \in MsgModes} ELSE {})
     \cup (IF "signedMsg" \in TamperFields /\ c.signedMsgOk THEN
         {[tag |-> "signedMsg", c |-> [c EXCEPT !.signedMsgOk = FALSE, !.sigBy = "none"]]} ELSE {})
     \cup (IF "sig" \in TamperFields /\ c.kind = "std" THEN
         {[tag |-> "sig=" \o v, c |-> [c EXCEPT !.sigBy = v]] : v \in (Keys \cup {"none"}) \ {c.sigBy}} ELSE {})
     \cup (IF "resign" \in TamperFields /\ c.kind = "std" THEN     \* re-signed by another key set
-        {[tag |-> "resign=" \o v, c |-> [c EXCEPT !.avk = v, !.sigBy = v]] : v \in Keys \ {c.avk}} ELSE {})
+        {[tag |-> "resign=" \o v, c |-> [c EXCEPT !.avk = v, !.sigBy = v]] : v \in (Keys \cup SignTwins(c.avk)) \ {c.avk}} ELSE {})
     \cup (IF "kind" \in TamperFields THEN
         \* the other signature variant: a multi-signature nobody made / somebody else's genesis signature
         {[tag |-> "kind", c |-> [c EXCEPT !.kind = IF @ = "genesis" THEN "std" ELSE "genesis",
@@ -149,6 +171,29 @@ ForgedOver(targets, keys, pars, navks, npars) ==
 RogueGenesis == [Honest(1) EXCEPT !.id = "h1~rogue", !.genSigOk = FALSE, !.nextAvk = "A"]
 
 TamperedAll == UNION {Tampered(h) : h \in HonestSet}
+
+(***************************************************************************)
+(* The other side of a twin: the honest certificate i is replaced by a     *)
+(* variant that commits to a TWIN of the next key / next parameters        *)
+(* (message changed, re-digested, re-signed by its own set, hash           *)
+(* recomputed: Tampered(Honest(i)) has it under the id built below), and   *)
+(* the next epoch's set issues on top of it a certificate that carries the *)
+(* BASE value.  Everything is self-consistent and the variant chains to    *)
+(* genesis; only "is the carried value the committed one" separates them.  *)
+(***************************************************************************)
+TwinTip(i, field, v) ==
+    LET h == Honest(i)
+        e == h.epoch + 1 IN
+    [id |-> "tip(" \o h.id \o "," \o field \o "=" \o v \o ")",
+     prev |-> h.id \o "~" \o field \o "=" \o v \o "r",
+     epoch |-> e, kind |-> "std", avk |-> Key(e), params |-> Par(e), msgEpoch |-> e,
+     nextAvk |-> "A", nextParams |-> "p", hashOk |-> TRUE, signedMsgOk |-> TRUE,
+     sigBy |-> Key(e), genSigOk |-> FALSE]
+TwinTips ==
+    IF Twins /\ "r" \in MsgModes
+    THEN UNION {{TwinTip(i, "nextAvk", v) : v \in AvkTwins(Honest(i).nextAvk)}
+                \cup {TwinTip(i, "nextParams", v) : v \in ParTwins(Honest(i).nextParams)} : i \in 2..N}
+    ELSE {}
 Forged1     == ForgedOver(HonestIds \cup {RogueGenesis.id}, ForgeKeys, ForgePars, ForgeNextAvk, ForgeNextPars)
 (* second level: the adversary's own key set on top of its own forged certificates *)
 Forged2     == IF ForgeLevels >= 2
@@ -157,7 +202,7 @@ Forged2     == IF ForgeLevels >= 2
                                                               /\ f.nextParams \in Forge2Pars}},
                                {"A"}, Forge2Pars, {"A"}, Forge2Pars)
                ELSE {}
-Universe    == HonestSet \cup TamperedAll \cup {RogueGenesis} \cup Forged1 \cup Forged2
+Universe    == HonestSet \cup TamperedAll \cup {RogueGenesis} \cup Forged1 \cup Forged2 \cup TwinTips
 
 Missing     == [Honest(1) EXCEPT !.id = "-", !.kind = "missing"]     \* "no such certificate"
 
@@ -176,7 +221,7 @@ StdFails(c, p) ==
        (IF c.id = c.prev THEN {"loop"} ELSE {})                  \* verify_is_not_in_infinite_loop
     \cup (IF ~c.hashOk THEN {"hash"} ELSE {})                     \* verify_hash_matches_content
     \cup (IF ~c.signedMsgOk THEN {"signedMsg"} ELSE {})           \* ..._matches_hashed_protocol_message
-    \cup (IF c.sigBy # c.avk THEN {"multiSig"} ELSE {})           \* verify_multi_signature (own avk, params)
+    \cup (IF ~Verifies(c.sigBy, c.avk) THEN {"multiSig"} ELSE {}) \* verify_multi_signature (own avk, params)
     \cup (IF c.msgEpoch # c.epoch THEN {"msgEpoch"} ELSE {})      \* verify_epoch_matches_protocol_message
     \cup (IF HasGap(c, p) THEN {"gap"} ELSE {})                   \* verify_epoch_chaining
     \cup (IF p.id # c.prev THEN {"prevHash"} ELSE {})             \* previous hash = previous certificate hash
@@ -207,6 +252,6 @@ RECURSIVE ValidFrom(_, _, _)
 ValidFrom(U, c, fuel) ==
     IF c.kind = "genesis" THEN SelfOk(c) /\ c.genSigOk
     ELSE /\ c.kind = "std" /\ fuel > 0
-         /\ SelfOk(c) /\ c.sigBy = c.avk
+         /\ SelfOk(c) /\ Verifies(c.sigBy, c.avk)
          /\ \E p \in Owners(U, c.prev) : LinkOk(c, p) /\ ValidFrom(U, p, fuel - 1)
 =============================================================================
